@@ -195,6 +195,11 @@ type AOp struct {
 	Src      int       `json:"src,omitempty"`      // view index, -1 = fresh array from Vals
 	NewShape []int     `json:"new_shape,omitempty"`
 	Bulk     string    `json:"bulk,omitempty"`
+	// SrcRoot/SrcLoc/SrcStep: a fresh source (Src < 0) that is not a whole array but the view
+	// Slice(SrcLoc, Dims, SrcStep) of a fresh parent array of shape SrcRoot (Vals fills the whole parent)
+	SrcRoot []int `json:"src_parent_dims,omitempty"`
+	SrcLoc  []int `json:"src_loc,omitempty"`
+	SrcStep []int `json:"src_step,omitempty"`
 }
 
 type AProg struct {
@@ -324,6 +329,7 @@ func genProgram(r *core.Rand, typ, backing string, o progOpts) *AProg {
 			if src < 0 || r.Bool(0.4) {
 				op.Src = -1
 				op.Vals = fresh(prod(dims))
+				parentedSource(r, &op, dims, p.Root, fresh)
 			}
 			if r.Bool(0.15) {
 				// whole-view copy
@@ -338,6 +344,7 @@ func genProgram(r *core.Rand, typ, backing string, o progOpts) *AProg {
 				op = AOp{K: "copyfrom", V: vi, Src: src2, Dims: cpInts(v.shape)}
 				if src2 < 0 {
 					op.Vals = fresh(v.size())
+					parentedSource(r, &op, v.shape, p.Root, fresh)
 				}
 			}
 		case o.allowBulk && choice < 84 && len(sim.views) < o.maxViews:
@@ -519,6 +526,11 @@ func (s *shadowSim[T]) apply(op *AOp, tmp **sView[T]) {
 		if op.Src >= 0 {
 			return s.views[op.Src]
 		}
+		if op.SrcRoot != nil {
+			f := newShadowRoot[T](-1, op.SrcRoot)
+			copy(f.st.data, conv[T](op.Vals, s.base))
+			return f.slice(op.SrcLoc, dims, op.SrcStep)
+		}
 		f := newShadowRoot[T](-1, dims)
 		copy(f.st.data, conv[T](op.Vals, s.base))
 		return f
@@ -583,4 +595,48 @@ func (s *shadowSim[T]) apply(op *AOp, tmp **sView[T]) {
 	if tmp != nil {
 		*tmp = s.lastSrc
 	}
+}
+
+// parentedSource turns (half of the time) the fresh source of a two-array write into a view of a bigger fresh array
+// in OTHER storage: a partial and/or stepped view, often starting at the parent's origin, and now and then of a parent
+// with exactly as many elements as the destination's root array - what a caller copying between two arrays has.
+func parentedSource(r *core.Rand, op *AOp, shape, destRoot []int, fresh func(int) []float64) {
+	if !r.Bool(0.5) {
+		return
+	}
+	nd := len(shape)
+	root, loc, step := make([]int, nd), make([]int, nd), make([]int, nd)
+	fits := len(destRoot) == nd
+	for d := 0; d < nd && fits; d++ {
+		if shape[d] > destRoot[d] {
+			fits = false
+		}
+	}
+	if fits && r.Bool(0.4) {
+		// same shape as the destination's root array, view at the origin
+		for d := 0; d < nd; d++ {
+			root[d], loc[d], step[d] = destRoot[d], 0, 1
+			if (shape[d]-1)*2+1 <= destRoot[d] && r.Bool(0.3) {
+				step[d] = 2
+			}
+		}
+	} else {
+		for d := 0; d < nd; d++ {
+			step[d] = 1
+			if r.Bool(0.3) {
+				step[d] = 2
+			}
+			extra := r.Intn(3)
+			loc[d] = 0
+			if r.Bool(0.4) {
+				loc[d] = r.Intn(extra + 1)
+			}
+			root[d] = loc[d] + (shape[d]-1)*step[d] + 1 + (extra - loc[d])
+		}
+	}
+	if prod(root) > 400 {
+		return
+	}
+	op.SrcRoot, op.SrcLoc, op.SrcStep = root, loc, step
+	op.Vals = fresh(prod(root))
 }
